@@ -81,9 +81,11 @@ def model_shape(line):
     return parts[2] if len(parts) > 2 else ""
 
 
-def run_impl(progs, mode, extra=()):
+def run_impl(progs, mode, extra=(), asan=False):
     b = bins()
-    rc, res, err = vlib.run_lines(b["h"], [" ".join([mode, vlib.hexs(p)] + list(extra)) for p in progs], timeout=3000)
+    if asan and "hasan" not in b:
+        b["hasan"] = vlib.cxx_build("h_run", flavor="asan")
+    rc, res, err = vlib.run_lines(b["hasan" if asan else "h"], [" ".join([mode, vlib.hexs(p)] + list(extra)) for p in progs], timeout=3000)
     if len(res) != len(progs):
         raise vlib.BuildError("h_run produced %d lines for %d programs: %s" % (len(res), len(progs), err[-1000:]))
     return [split_impl(r) for r in res]
